@@ -4,7 +4,7 @@
 Anchors (crates/emmylua_code_analysis/src):
 * `compilation/analyzer/doc/diagnostic_tags.rs` — `analyze_diagnostic*` (which action a
   `---@diagnostic <kind>[: codes]` tag registers and over which byte range),
-* `vfs/document.rs` — `LuaDocument::get_line`, `get_line_range` (incl. the last-line rule),
+* `vfs/document.rs` — `LuaDocument::get_line`, `get_line_range` (incl. the last-line rule); `scope_end_of_line`,
 * `db_index/diagnostic/diagnostic_action.rs` — `DiagnosticAction::is_match` (half-open overlap test
   `scope_covers`, installed by the `fix:` commit in place of rowan's `TextRange::intersect`),
 * `db_index/diagnostic/mod.rs` — `is_file_diagnostic_code_disabled`, file-level enabled/disabled sets,
@@ -93,25 +93,41 @@ def scopedActions (range : Range) : Option (List (Option Code)) → List Action
   | none => [⟨range, .disableAll⟩]
   | some cs => (knownCodes cs).map fun c => ⟨range, .disable c⟩
 
+/-- `scope_end_of_line` (diagnostic_tags.rs): end of a scope whose last line is `line` — the start of
+the following line, or one past the end of the text when `line` is the last line, so that the
+end-of-file position belongs to the last line -/
+def lineScopeEnd (starts : List Nat) (len : Nat) (line : Nat) : Option Nat :=
+  match starts[line + 1]? with
+  | some e => some e
+  | none => if line + 1 = starts.length then some (len + 1) else none
+
 /-- the byte range a tag is valid in (`valid_range` / `owner_block_range`), when it registers ranged
-actions at all -/
+actions at all. `disable-next-line`: from the start of the comment to the end of the line after the
+comment's last line (its own last line when the document ends there); `disable-line`: the comment's
+last line; `disable`: the enclosing block; scopes that run to the end of the document include the
+end-of-file position `len`. -/
 def tagRange (starts : List Nat) (len : Nat) (tag : Tag) : Option Range :=
   match tag.kind with
   | .disableNextLine =>
     match getLine starts tag.comment.2 with
     | none => none
     | some l =>
-      match lineRange starts len (l + 1) with
+      match lineScopeEnd starts len (min (l + 1) (starts.length - 1)) with
       | none => none
-      | some lr => some (tag.comment.1, lr.2)
+      | some e => some (tag.comment.1, e)
   | .disableLine =>
     match getLine starts tag.comment.2 with
     | none => none
-    | some l => lineRange starts len l
+    | some l =>
+      match lineRange starts len l, lineScopeEnd starts len l with
+      | some lr, some e => some (lr.1, e)
+      | _, _ => none
   | .disable =>
     match tag.block with
     | none => none
-    | some (br, top) => if top && tag.codes.isSome then none else some br
+    | some (br, top) =>
+      if top && tag.codes.isSome then none
+      else some (if br.2 = len then (br.1, len + 1) else br)
   | _ => none
 
 /-- `analyze_diagnostic` for one tag: a top-level `disable: codes` fills the file-disabled set,
